@@ -232,4 +232,51 @@ def WFTables (G : Tables) : Bool :=
   && lookup G.returnDispatch G.retArrTy == some G.retArrCls
   && decide (G.subroutineTy < 256) && decide (G.retArrTy < 256)
 
+/-! ### Histories: a message object that is filled in / modified step by step
+
+The real message objects are mutable (attribute assignment on every message, in-place list
+edits on the values of a `ReturnArrayMessage`) and may be serialised (`bytes(m)`, `len(m)`)
+at any moment.  In the model a message *is* its current field values: an update maps a
+message to a message, observing it (`bytes`/`len`) changes nothing, and `serialize` is a
+function of the current value only — there is no hidden state such as a cached packed form. -/
+
+inductive Upd
+  /-- `bytes(m)` / `len(m)` -/
+  | observe
+  /-- attribute assignment of leaf field `k` of a ctypes message -/
+  | setLeaf (k : Nat) (v : Int)
+  /-- `m.subroutine = b` -/
+  | setBytes (b : List Nat)
+  /-- `m.address = a` -/
+  | setAddr (a : Int)
+  /-- `m.values = vs` (the list is replaced) -/
+  | setValues (vs : List (Option Int))
+  /-- `m.values[i] = v` (in place) -/
+  | setItem (i : Nat) (v : Option Int)
+  /-- `m.values.append(v)` -/
+  | append (v : Option Int)
+  /-- `m.values.pop()` -/
+  | pop
+  /-- `m.values.insert(i, v)` -/
+  | insert (i : Nat) (v : Option Int)
+  /-- `del m.values[i]` -/
+  | delete (i : Nat)
+  deriving DecidableEq, Repr, Inhabited
+
+/-- updates that do not apply to the kind of message leave it unchanged -/
+def applyUpd : Msg → Upd → Msg
+  | m, .observe => m
+  | .fixed cls vals, .setLeaf k v => .fixed cls (vals.set k v)
+  | .subroutine _, .setBytes b => .subroutine b
+  | .retArr _ vs, .setAddr a => .retArr a vs
+  | .retArr a _, .setValues vs => .retArr a vs
+  | .retArr a vs, .setItem i v => .retArr a (vs.set i v)
+  | .retArr a vs, .append v => .retArr a (vs ++ [v])
+  | .retArr a vs, .pop => .retArr a vs.dropLast
+  | .retArr a vs, .insert i v => .retArr a (vs.take i ++ v :: vs.drop i)
+  | .retArr a vs, .delete i => .retArr a (vs.eraseIdx i)
+  | m, _ => m
+
+def applyUpds (m : Msg) (us : List Upd) : Msg := us.foldl applyUpd m
+
 end NQ.Msg
